@@ -499,5 +499,43 @@ theorem c16_shape_newServer :
      "newProtocolStorage", "NewOverlay", "NewWebSocket", "newServiceManager",
      "statusReporterStruct.RegisterStatusReporter", "return:c"] := rfl
 
+theorem c16_shape_newContext :
+    Shapes.context_newContext =
+   ["ServiceFactory.Name", "ServiceFactory.Name", "tx.CreateBucketIfNotExists",
+     "tx.CreateBucketIfNotExists", "db.Update"] := rfl
+
+theorem c16_shape_dbPathFromEnv :
+    Shapes.server_dbPathFromEnv =
+   ["os.Getenv", "if:(p==\"\")", "cfgpath.GetDataPath", "return:p"] := rfl
+
+theorem c16_shape_newServiceManager :
+    Shapes.service_newServiceManager =
+   ["network.NewRoutineDispatcher", "s.updateDbFileName", "s.dbFileName", "openDb",
+     "srv.ProtocolRegister", "ServiceFactory.registeredServiceIDs", "ServiceFactory.Name",
+     "newContext", "ServiceFactory.start", "servicesMutex.Lock", "servicesMutex.Unlock",
+     "WebSocket.registerService", "statusReporterStruct.RegisterStatusReporter"] := rfl
+
+theorem c16_shape_openDb :
+    Shapes.service_openDb =
+   ["bbolt.Open"] := rfl
+
+theorem c16_shape_serviceManager_dbFileNameOld :
+    Shapes.service_serviceManager_dbFileNameOld =
+   ["Public.MarshalBinary", "path.Join"] := rfl
+
+theorem c16_shape_serviceManager_dbFileName :
+    Shapes.service_serviceManager_dbFileName =
+   ["Public.MarshalBinary", "sha256.New", "h.Write", "path.Join"] := rfl
+
+theorem c16_shape_serviceManager_updateDbFileName :
+    Shapes.service_serviceManager_updateDbFileName =
+   ["s.dbFileNameOld", "os.Stat", "if:(err==nil)", "s.dbFileNameOld", "s.dbFileName",
+     "os.Rename", "if:(err!=nil)"] := rfl
+
+theorem c16_shape_serviceManager_closeDatabase :
+    Shapes.service_serviceManager_closeDatabase =
+   ["if:(s.db!=nil)", "db.Close", "if:(err!=nil)", "if:s.delDb", "s.dbFileName", "os.Remove",
+     "if:(err!=nil)", "return:xerrors.Errorf(\"\",err)", "return:nil"] := rfl
+
 
 end C16
